@@ -577,6 +577,11 @@ def strtok_r (m : Mem) (str : Option Ptr) (delim : Ptr) (save : Option Ptr) (fue
         pure (m, some (sp + 1), some (str - 1))
       else pure (m, some sp, some (str - 1))
 
+/-- `char *strtok(char *str, const char *delim) { static char *saveptr; return strtok_r(str, delim, &saveptr); }`
+— the static is the explicit state `static` (initially NULL) -/
+def strtok (m : Mem) (str : Option Ptr) (delim : Ptr) («static» : Option Ptr) (fuel : Nat) :
+    Option (Mem × Option Ptr × Option Ptr) := strtok_r m str delim «static» fuel
+
 /-- historical: without the fix the save pointer is left untouched on the
 "no token" exit -/
 def strtok_rOrig (m : Mem) (str : Option Ptr) (delim : Ptr) (save : Option Ptr) (fuel : Nat) :
